@@ -29,6 +29,12 @@
 //	                  dial_options.authority (- = not configured: the authority is the address dialled);
 //	                  dt=<ms> = dial_options.timeout.  The observation then ends with  auth=<a>+<a>…  (distinct
 //	                  values, hex; "target" / "side" = the address of the target / of the reflection side-car)
+//	      ov=<burst>.<rps>.<ms>.<lat>   (mode e) an OVERLOADED pool with discard_overflow on (what the CLI sets by default):
+//	                  the rps schedule is once(burst) + const(rps, ms) and the first answer to each instance comes <lat> ms
+//	                  (>= 2 s) after the call arrived, so the instances fall behind: the tokens that are >= 2 s overdue
+//	                  when an instance gets to them are DISCARDED (sample tagged "discarded", the acquired entry is not
+//	                  sent), the rest of the entries are shot late. Which entries are discarded is timing; every entry
+//	                  that is NOT discarded must reach the target exactly once, as written.
 //	      tls=1       the gun option tls: the target (and the reflection side-car) of this case are served behind TLS
 //	                  with a self-signed certificate; nothing else changes — what arrives is specified as without it
 //	scen <ninst>[r] <timeout_ms> <order> <users> <calls> <scenarios> [rm=<meta>] [fl=<plan>]   (r: reflect_port as above)
@@ -254,6 +260,27 @@ func authNote(observe bool, s string) string {
 	return s + " auth=" + strings.Join(l, "+")
 }
 
+// overload of an engine-mode case: ov=<burst>.<rps>.<ms>.<lat>
+type ovConf struct{ burst, rps, ms, lat int }
+
+func overload(f []string) *ovConf {
+	for _, x := range f {
+		if strings.HasPrefix(x, "ov=") {
+			p := strings.Split(x[3:], ".")
+			if len(p) != 4 {
+				return nil
+			}
+			var o ovConf
+			o.burst, _ = strconv.Atoi(p[0])
+			o.rps, _ = strconv.Atoi(p[1])
+			o.ms, _ = strconv.Atoi(p[2])
+			o.lat, _ = strconv.Atoi(p[3])
+			return &o
+		}
+	}
+	return nil
+}
+
 // trailing options of a case: rm=<meta>, fl=<plan>
 func caseOpts(f []string) (rm map[string]string, fl string) {
 	for _, x := range f {
@@ -376,15 +403,28 @@ func runJSON(f []string) string {
 	srv.Drain()
 
 	if mode == "e" {
+		ov := overload(f[7+n:])
+		if ov != nil {
+			// the first answers of the target take ov.lat ms: the instances fall behind the schedule
+			fl = "p" + strings.TrimSuffix(strings.Repeat(fmt.Sprintf("0+%d.", ov.lat), ninst), ".")
+		}
 		defer armFaults(fl)()
 		ag := &recAggr{}
+		newRPS := func() (core.Schedule, error) { return schedule.NewUnlimited(30 * time.Second), nil }
+		if ov != nil {
+			newRPS = func() (core.Schedule, error) {
+				return schedule.NewComposite(schedule.NewOnce(int64(ov.burst)),
+					schedule.NewConst(float64(ov.rps), time.Duration(ov.ms)*time.Millisecond)), nil
+			}
+		}
 		eng := engine.New(log, engine.Metrics{Request: &monitoring.Counter{}, Response: &monitoring.Counter{},
 			InstanceStart: &monitoring.Counter{}, InstanceFinish: &monitoring.Counter{}},
 			engine.Config{Pools: []engine.InstancePoolConfig{{
 				ID: "p", Provider: prov, Aggregator: ag,
 				NewGun:          func() (core.Gun, error) { return grpcgun.NewGun(conf), nil },
-				NewRPSSchedule:  func() (core.Schedule, error) { return schedule.NewUnlimited(30 * time.Second), nil },
+				NewRPSSchedule:  newRPS,
 				StartupSchedule: schedule.NewOnce(int64(ninst)),
+				DiscardOverflow: ov != nil,
 			}}})
 		ctx, cancel := context.WithTimeout(context.Background(), 20*time.Second)
 		err := eng.Run(ctx)
